@@ -157,6 +157,10 @@ class TlcResult:
                     self.generated = int(m.group(1))
                     self.distinct = int(m.group(2))
                     continue
+                m = re.match(r"^The number of states generated: (\d+)", s)      # simulation mode
+                if m:
+                    self.generated = self.distinct = int(m.group(1))
+                    continue
                 if s.startswith("Error:") or "Exception" in s and "at tlc2" not in s and s.startswith("java."):
                     self.errors.append(s)
                 m = cov.match(s)
